@@ -244,6 +244,29 @@ def cli_scenarios(R, g, n):
                 if "missing field" in msg or "Failed to parse" in msg or "parse plan" in msg.lower():
                     fails.append({"scenario": "stored plan copy unreadable", "tree": cli.tree_json(tree),
                                   "search": search, "replace": replace, "rc": [rc1, rcu, rcr], "stderr": msg[-800:]})
+    # a plan written over an older, longer, still unapplied plan file must be read back as itself
+    for j in range(max(2, n // 3)):
+        a, b2 = g.term_pair()
+        c, d = g.term_pair()
+        s1, r1 = gen.render(a, "Snake"), gen.render(b2, "Snake")
+        s2, r2 = gen.render(c, "Snake"), gen.render(d, "Snake")
+        big = [{"p": f"f{k}_{s1}.txt", "k": "f", "c": ((s1 + " x\n") * 6).encode(), "m": 0o644} for k in range(6)]
+        small = [{"p": "one.txt", "k": "f", "c": (s2 + "\n").encode(), "m": 0o644}]
+        tree = big + small
+        for plan_out in (None, "saved/plan.json"):
+            with cli.Sandbox(tree) as s1b, cli.Sandbox(tree) as s2b:
+                po = ["--plan-out", plan_out] if plan_out else []
+                s1b.run(["--no-auto-init", "plan", s1, r1, "--quiet"] + po)
+                rcp, op, ep = s1b.run(["--no-auto-init", "plan", s2, r2, "--quiet"] + po)
+                rca, oa, ea = s1b.run(["--no-auto-init", "-y", "apply"] + ([plan_out] if plan_out else []))
+                rcd, od, ed = s2b.run(["--no-auto-init", "-y", "rename", s2, r2])
+                R.case(("replan", s1, s2, plan_out), nontrivial=True)
+                succeeded += rca == 0
+                snap1 = {k: v for k, v in s1b.snapshot().items() if not (k == "saved" or k.startswith("saved/"))}
+                if rcp != 0 or rca != rcd or snap1 != s2b.snapshot():
+                    fails.append({"scenario": "plan saved over an older plan file is not read back as written",
+                                  "tree": cli.tree_json(tree), "first": [s1, r1], "second": [s2, r2], "plan_out": plan_out,
+                                  "rc": [rcp, rca, rcd], "stderr": ea.decode("utf-8", "replace")[-400:]})
     if succeeded == 0:
         fails.append({"scenario": "no CLI scenario succeeded (the CLI runs are vacuous)", "n": n})
     R.coverage["cli_scenarios_succeeded"] = succeeded
